@@ -967,3 +967,34 @@ def decimal_tie_game(rng, kind=None):
         rows = [[(a, win), (1 - a, lose)], [(b, win), (1 - b, lose)]]
     xtl = [[("a", 1), ("b", 2)]] + rows + [[(Fr(1), lose)], [(Fr(1), win)]]
     return finish([0] * 5, [kind, PR, PR, PR, PR], xtl, [win], {"family": "decimal_tie"})
+
+
+def with_orphan_state(g, rng):
+    """the same game plus one rewarded probabilistic state that NO state moves to (appended last): an ordinary state
+    of the game without pruning, cut off from the initial state (and emptied) with pruning"""
+    xt = exact_tl(g)
+    n = len(g["players"])
+    tgts = [s for s in range(n)]
+    a, b = rng.choice(tgts), rng.choice(tgts)
+    row = [(Fr(1), a)] if a == b or rng.random() < 0.4 else [(Fr(1, 4), a), (Fr(3, 4), b)]
+    return finish(list(g["rewards"]) + [rng.randint(1, 5)], list(g["players"]) + [PR], xt + [row], g["final_states"],
+                  dict(g.get("_meta", {}), orphan=True))
+
+
+def no_zero_game(rng):
+    """a stopping game WITHOUT a losing sink: every failure returns to the initial state, so every state reaches the
+    final state with positive probability (nothing for the conditioning to remove); one player state with
+    alternatives of different value and reward, plus an orphan state nobody moves to"""
+    k = rng.randint(2, 4)
+    kinds = [rng.choice([P1, P2]) for _ in range(2)]
+    # 0: player -> 1: player with k alternatives -> prob states 2..k+1 -> final (k+2) or back to 0
+    fin = k + 2
+    ps = rng.sample([Fr(1, 4), Fr(1, 2), Fr(3, 4), Fr(1, 8), Fr(7, 8), Fr(3, 8)], k)
+    xtl = [[("go", 1)], [(ACTIONS[j], 2 + j) for j in range(k)]]
+    for j in range(k):
+        xtl.append([(ps[j], fin), (1 - ps[j], 0)])
+    xtl.append([(Fr(1), fin)])
+    rewards = [0, rng.randint(0, 3)] + [rng.randint(0, 6) for _ in range(k)] + [0]
+    players = [kinds[0], kinds[1]] + [PR] * k + [PR]
+    g = finish(rewards, players, xtl, [fin], {"family": "no_zero"})
+    return with_orphan_state(g, rng)
